@@ -5,12 +5,14 @@ Line-protocol driver for the Devs model (C14, C15, C18-devs).
 One output line per input line.  See harness/c14.py for the producer.
 
   scenario devs|abm         reset
-  prog a cmd ; cmd ; …      define program a        (cmd: abs t p a | rel d p a | again c d p | cancel k | drop c | halt)
+  prog a cmd ; cmd ; …      define program a        (cmd: abs t p a | rel d p a | again c d p | cancel k | drop c | halt | raise Index|Value|Key)
   stepprog cmd ; …          define the user's step body
   setup | reset              (reset = Simulator.reset() followed by a fresh model: back to `init`)
   abs t p a | rel d p a | cancel k | drop c
   again c d p                schedule_event_relative once more with the callable object c (`ok none`: the program no longer holds it)
   until T | for d | next | peek n | len
+A run call that is cut short by an exception of a callable answers `err Raised <kind> now=… steps=… log=…` (the program has
+caught the exception: the stored state is `caught`).
 -/
 open Mesa.Devs
 
@@ -21,6 +23,9 @@ def parseCmd : List String → Option Cmd
   | ["cancel", k] => do pure (.cancel (← k.toNat?))
   | ["drop", k] => do pure (.drop (← k.toNat?))
   | ["halt"] => some .halt
+  | ["raise", "Index"] => some (.raise .index)
+  | ["raise", "Value"] => some (.raise .value)
+  | ["raise", "Key"] => some (.raise .key)
   | _ => none
 
 def words (s : String) : List String := (s.splitOn " ").filter (· ≠ "")
@@ -34,9 +39,17 @@ def fmtEntry : LogEntry → String
   | .user _ k t => s!"{k}@{t}"
   | .step _ t => s!"S@{t}"
 
+def fmtExc : Exc → String
+  | .index => "Index"
+  | .value => "Value"
+  | .key => "Key"
+
 def fmtRun (old : Sim) (s : Sim) : String :=
   let new := s.log.drop old.log.length
-  s!"ok now={s.now} steps={s.steps} log={" ".intercalate (new.map fmtEntry)}"
+  let head := match s.raised with
+    | none => "ok"
+    | some x => "err Raised " ++ fmtExc x
+  s!"{head} now={s.now} steps={s.steps} log={" ".intercalate (new.map fmtEntry)}"
 
 def fmtErr : Err → String
   | .past => "err Past"
@@ -91,15 +104,15 @@ def stepLine (st : St) (ws : List String) : St × String :=
       | some T =>
         match runUntil fuel s T with
         | none => (st, "err Fuel")
-        | some s' => ({ st with sim := s' }, fmtRun s s')
+        | some s' => ({ st with sim := caught s' }, fmtRun s s')
   | ["for", d] =>
       match d.toInt? with
       | none => (st, "bad-op")
       | some d =>
         match runFor fuel s d with
         | none => (st, "err Fuel")
-        | some s' => ({ st with sim := s' }, fmtRun s s')
-  | ["next"] => let s' := runNext s; ({ st with sim := s' }, fmtRun s s')
+        | some s' => ({ st with sim := caught s' }, fmtRun s s')
+  | ["next"] => let s' := runNext s; ({ st with sim := caught s' }, fmtRun s s')
   | ["len"] => (st, s!"ok len={s.pending.length}")   -- len(event_list): cancelled events stay until popped
   | ["peek", n] =>
       match n.toNat? with
